@@ -422,14 +422,17 @@ theorem step_verdict (cf : Conf) (st : St) (r : Req) :
 name, the raw target and the presence of a DNS message. -/
 theorem verdict_congr_tls (cf : Conf) (r1 r2 : Req) (h1 : r1.tr = r2.tr) (h2 : r1.tr ≠ .hp)
     (h3 : r1.sni = r2.sni) (h4 : r1.target = r2.target) (h5 : r1.dnsOK = r2.dnsOK)
-    (h6 : r1.sniValidHost = r2.sniValidHost) :
+    (h6 : r1.sniValidHost = r2.sniValidHost) (h7 : r1.ipLitOK = r2.ipLitOK)
+    (h8 : hostFieldOK r1.tr r1.host = hostFieldOK r2.tr r2.host) :
     verdictOf (front cf r1) = verdictOf (front cf r2) := by
   have http : r1.tr = .h1 ∨ r1.tr = .h2 →
       verdictOf (frontHTTP cf r1) = verdictOf (frontHTTP cf r2) := by
     intro ht
     unfold frontHTTP
-    rw [← h1, ← h4, ← h5]
-    cases gateHTTP cf r1.tr r1.target r1.dnsOK with
+    rw [← h8, ← h1, ← h4, ← h5, ← h7]
+    split
+    · rfl
+    cases gateHTTP cf r1.tr r1.target r1.dnsOK r1.ipLitOK with
     | error o => rfl
     | ok u =>
       simp only [verdictOf]
@@ -456,11 +459,11 @@ theorem verdict_congr_tls (cf : Conf) (r1 r2 : Req) (h1 : r1.tr = r2.tr) (h2 : r
   | hp => exact absurd ht h2
 
 /-- The decoded path of a request (`none`: the target has none). -/
-def decodedPath (r : Req) : Option Bytes := (specPath r.target).map (·.2)
+def decodedPath (cf : Conf) (r : Req) : Option Bytes := (specPath (envOf cf r.ipLitOK) r.target).map (·.2)
 
 /-- `r.Host` as the handler sees it. -/
-def hostOf (r : Req) : Bytes :=
-  match specPath r.target with
+def hostOf (cf : Conf) (r : Req) : Bytes :=
+  match specPath (envOf cf r.ipLitOK) r.target with
   | some (h, _) => effHost r h
   | none => []
 
@@ -473,8 +476,8 @@ options, question and peer address are. -/
 theorem C16_no_other_source (cf : Conf) (r r' : Req) (c c' : Ctx)
     (h : front cf r = .ok c) (h' : front cf r' = .ok c')
     (htr : r.tr = r'.tr) (hsni : r.sni = r'.sni)
-    (hpath : decodedPath r = decodedPath r')
-    (hplain : r.tr = .hp → hostOf r = hostOf r' ∧ r.hostSplit = r'.hostSplit) :
+    (hpath : decodedPath cf r = decodedPath cf r')
+    (hplain : r.tr = .hp → hostOf cf r = hostOf cf r' ∧ r.hostSplit = r'.hostSplit) :
     clientIDFromCtx c = clientIDFromCtx c' := by
   have hs := front_specCtx cf r c h
   have hs' := front_specCtx cf r' c' h'
@@ -489,10 +492,10 @@ theorem C16_no_other_source (cf : Conf) (r r' : Req) (c c' : Ctx)
   · cases hs; cases hs'; rw [hsni]
   all_goals first
     | (cases hs; cases hs'; rfl)
-    | (cases h1 : specPath r.target with
+    | (cases h1 : specPath (envOf cf r.ipLitOK) r.target with
        | none => rw [h1] at hs; cases hs
        | some a =>
-         cases h2 : specPath r'.target with
+         cases h2 : specPath (envOf cf r'.ipLitOK) r'.target with
          | none => rw [h2] at hs'; cases hs'
          | some b =>
            rw [h1] at hs hpath hplain; rw [h2] at hs' hpath hplain
@@ -511,8 +514,8 @@ attributed to the same identity, from whatever server states. -/
 theorem C16_no_other_source_attribution (cf : Conf) (st st' : St) (r r' : Req) (id id' : Bytes)
     (h : (step cf st r).2 = .ans id) (h' : (step cf st' r').2 = .ans id')
     (htr : r.tr = r'.tr) (hsni : r.sni = r'.sni)
-    (hpath : decodedPath r = decodedPath r')
-    (hplain : r.tr = .hp → hostOf r = hostOf r' ∧ r.hostSplit = r'.hostSplit) :
+    (hpath : decodedPath cf r = decodedPath cf r')
+    (hplain : r.tr = .hp → hostOf cf r = hostOf cf r' ∧ r.hostSplit = r'.hostSplit) :
     id = id' := by
   cases hf : front cf r with
   | error o =>
@@ -538,7 +541,7 @@ server name the request came with (`l.<configured name>`; over unencrypted HTTP
 the Host stands in for the server name). -/
 theorem C16_decode_then_shape (cf : Conf) (st : St) (r : Req) (id : Bytes)
     (hh : isHTTP r.tr = true) (h : (step cf st r).2 = .ans id) (hne : id ≠ []) :
-    (∃ host rp p l, splitTarget r.target = some (host, rp) ∧ pctDecode rp = some p ∧
+    (∃ host rp p l, splitTarget (envOf cf r.ipLitOK) r.target = some (host, rp) ∧ pctDecode rp = some p ∧
         validLabel l = true ∧ slash ∉ l ∧ pathClean p = slash :: dnsQuery ++ slash :: l ∧
         id = lower l)
     ∨ (cf.srvName ≠ [] ∧ ∃ cli l, validLabel l = true ∧ dot ∉ l ∧ cli = l ++ dot :: cf.srvName ∧
@@ -557,9 +560,9 @@ theorem C16_decode_then_shape (cf : Conf) (st : St) (r : Req) (id : Bytes)
       | error e => rw [hcc] at h; cases h
       | ok i => rw [hcc] at h; cases h; rfl
     rw [hfront] at hf
-    obtain ⟨u, hg, hu, hcu⟩ := frontHTTP_ok cf r c hf
-    obtain ⟨_, hsp, hun⟩ := parseRequestURI_parts _ u hu
-    obtain ⟨v, hv⟩ := gate_path_rooted cf _ _ _ u hg
+    obtain ⟨u, hg, hu, hcu, _⟩ := frontHTTP_ok cf r c hf
+    obtain ⟨_, hsp, hun⟩ := parseRequestURI_parts _ _ u hu
+    obtain ⟨v, hv⟩ := gate_path_rooted cf _ _ _ _ u hg
     rcases C16_ctx_shape c id hc hne with ⟨_, p, l, hp, hvl, hsl, hcl, hid⟩ |
         ⟨_, hsn, cli, l, hcs, hvl, hdl, hcli, hid⟩
     · left
@@ -601,23 +604,24 @@ theorem C16_decode_then_shape (cf : Conf) (st : St) (r : Req) (id : Bytes)
 /-- The split of a request-target the spec monitor relies on, stated without
 reference to the parser: the path component is a literal piece of the target,
 followed by nothing or by `?…`, preceded by nothing (origin-form), by
-`scheme:` or by `scheme://authority` (absolute-form, the authority is the
-Host); a rootless `scheme:…` target has the empty path. -/
-theorem C16_target_split_shape (raw host rp : Bytes) (h : splitTarget raw = some (host, rp)) :
+`scheme:` or by `scheme://authority` (absolute-form; `parseAuthority` — userinfo,
+port, IP literal, host escapes as in net/url — gives the Host); a rootless `scheme:…` target has the empty path. -/
+theorem C16_target_split_shape (e : UrlEnv) (raw host rp : Bytes) (h : splitTarget e raw = some (host, rp)) :
     ∃ pre q, raw = pre ++ rp ++ q ∧ qmark ∉ rp ∧ (q = [] ∨ q.head? = some qmark) ∧
       ((pre = [] ∧ host = [] ∧ rp.head? = some slash) ∨
        ∃ sc, sc ≠ [] ∧ (∀ c ∈ sc, schemeChar c) ∧
          ((pre = sc ++ [colon] ∧ host = [] ∧ rp.head? = some slash) ∨
-          (pre = sc ++ colon :: slash :: slash :: host ∧ slash ∉ host ∧ (rp = [] ∨ rp.head? = some slash)) ∨
+          (∃ auth, pre = sc ++ colon :: slash :: slash :: auth ∧ slash ∉ auth ∧
+              parseAuthority e (lower sc) auth = some host ∧ (rp = [] ∨ rp.head? = some slash)) ∨
           (rp = [] ∧ host = [] ∧ ∃ o, pre = sc ++ colon :: o ∧ o.head? ≠ some slash))) :=
-  target_split_shape raw host rp h
+  target_split_shape e raw host rp h
 
 /-- A DoH request whose decoded path carries a candidate label that is not a
 valid host-name label (or extra segments after it) is never answered: not
 attributed to nobody, not to somebody else — whatever server name, Host or
 headers it has. -/
 theorem C16_e2e_invalid_fails (cf : Conf) (st : St) (r : Req) (hh : isHTTP r.tr = true)
-    (host p l : Bytes) (hs : specPath r.target = some (host, p)) (hl : pathLabel p = some l)
+    (host p l : Bytes) (hs : specPath (envOf cf r.ipLitOK) r.target = some (host, p)) (hl : pathLabel p = some l)
     (hv : validLabel l = false) (id : Bytes) : (step cf st r).2 ≠ .ans id := by
   intro h
   have hfront : front cf r = frontHTTP cf r := by
@@ -630,8 +634,8 @@ theorem C16_e2e_invalid_fails (cf : Conf) (st : St) (r : Req) (hh : isHTTP r.tr 
   | ok c =>
     rw [step_ok cf st r c hf] at h
     rw [hfront] at hf
-    obtain ⟨u, _, hu, hcu⟩ := frontHTTP_ok cf r c hf
-    have hsp := parseRequestURI_spec _ u hu
+    obtain ⟨u, _, hu, hcu, _⟩ := frontHTTP_ok cf r c hf
+    have hsp := parseRequestURI_spec _ _ u hu
     rw [hs] at hsp
     simp only [Option.some.injEq, Prod.mk.injEq] at hsp
     obtain ⟨_, hp⟩ := hsp
@@ -679,12 +683,16 @@ theorem C16_ignored_inputs (cf : Conf) (st : St) (r : Req)
     step cf st { r with peer := peer, edns := edns, qname := qname, hdrs := hdrs } = step cf st r := rfl
 
 /-- Over TLS (DoH over HTTP/1.1 or h2, DoT, DoQ) the Host header / `:authority`
-and the request method are not a source either. -/
+and the request method are not a source either: any two values the transport
+accepts as a Host (`hostFieldOK`: `ValidHostHeader` for HTTP/1.x, a valid field
+value for h2 — a malformed one fails the request with 400 / a stream reset)
+lead to the same outcome. -/
 theorem C16_host_header_ignored_over_tls (cf : Conf) (st : St) (r : Req)
-    (host : Bytes) (hsplit : Option Bytes) (m : Method) (htr : r.tr ≠ .hp) :
+    (host : Bytes) (hsplit : Option Bytes) (m : Method) (htr : r.tr ≠ .hp)
+    (hok : hostFieldOK r.tr host = hostFieldOK r.tr r.host) :
     (step cf st { r with host := host, hostSplit := hsplit, method := m }).2 = (step cf st r).2 := by
   have k := verdict_congr_tls cf { r with host := host, hostSplit := hsplit, method := m } r
-    rfl htr rfl rfl rfl rfl
+    rfl htr rfl rfl rfl rfl rfl hok
   rw [step_verdict, step_verdict, k]
 
 /-- Plain DNS and DNSCrypt requests are always answered and attributed to
@@ -728,10 +736,10 @@ theorem C16_e2e_strict_rejects (cf : Conf) (st : St) (r : Req)
     rw [this]; exact Or.inr rfl
 
 -- Non-vacuity: concrete requests through the whole model.
-def exConf : Conf := { srvName := exHost, strict := true, certNames := [exHost, [42, 46] ++ exHost], plainDoH := false }
+def exConf : Conf := { srvName := exHost, strict := true, certNames := [exHost, [42, 46] ++ exHost], plainDoH := false, urlStrictColons := false }
 def exReq (tr : Tr) (sni target : Bytes) : Req :=
   { tr := tr, sni := sni, sniValidHost := true, method := .get, target := target, host := [120],
-    hostSplit := some [120], dnsOK := true, peer := [], edns := [], qname := [], hdrs := [] }
+    hostSplit := some [120], dnsOK := true, ipLitOK := true, peer := [], edns := [], qname := [], hdrs := [] }
 -- GET /dns-query/%43li-1?dns=… over h1 with SNI example.org: attributed to "cli-1"
 example : (step exConf {} (exReq .h1 exHost
     (slash :: dnsQuery ++ slash :: [37, 52, 51, 108, 105, 45, 49, 63, 100, 110, 115, 61, 65]))).2 =
@@ -745,6 +753,10 @@ example : (step exConf {} (exReq .h2 exHost (slash :: dnsQuery ++ [slash, 37, 12
 example : (step exConf {} (exReq .dot ([97, 46, 98] ++ dot :: exHost) [])).2 = .servfail := by decide
 -- DoT with SNI xexample.org: the handshake is refused
 example : (step exConf {} (exReq .dot (120 :: exHost) [])).2 = .hs := by decide
+-- absolute-form with an escaped non-ASCII authority, GET http://%ff/.. : the mux redirects (307);
+-- http://%41/dns-query (escape of an ASCII byte in the host) is a parse error (400)
+example : (step exConf {} (exReq .h1 exHost [104, 116, 116, 112, 58, 47, 47, 37, 102, 102, 47, 46, 46])).2 = .http 307 := by decide
+example : (step exConf {} (exReq .h1 exHost ([104, 116, 116, 112, 58, 47, 47, 37, 52, 49, 47] ++ dnsQuery))).2 = .http 400 := by decide
 
 end AGH.C16.E2E
 
